@@ -65,6 +65,7 @@ func (in *Interp) builtin(g *G, fr *Frame, b *ssa.Builtin, args []Value, call *s
 			if x.R == nil {
 				return mkInt(0, 64)
 			}
+			in.raceAccess(x.R.(*MapV), false)
 			return mkInt(uint64(x.R.(*MapV).n), 64)
 		case KArray:
 			return mkInt(uint64(len(x.R.([]Value))), 64)
@@ -109,6 +110,7 @@ func (in *Interp) builtin(g *G, fr *Frame, b *ssa.Builtin, args []Value, call *s
 		if n <= cap(xs) {
 			out := xs[:n]
 			for i, v := range ys {
+				in.raceTouch(&out[len(xs)+i], true)
 				out[len(xs)+i] = copyVal(v)
 			}
 			return Value{K: KSlice, R: &SliceV{S: out}}
@@ -153,6 +155,7 @@ func (in *Interp) builtin(g *G, fr *Frame, b *ssa.Builtin, args []Value, call *s
 			if !ok {
 				unsupported("delete with symbolic key")
 			}
+			in.raceAccess(args[0].R.(*MapV), true)
 			args[0].R.(*MapV).del(ks)
 		}
 		return Value{}
@@ -166,6 +169,7 @@ func (in *Interp) builtin(g *G, fr *Frame, b *ssa.Builtin, args []Value, call *s
 			return Value{}
 		}
 		args[0].R.(*ChanV).closed = true
+		in.raceRelease(args[0].R.(*ChanV))
 		return Value{}
 	case "print", "println":
 		return Value{}
